@@ -130,7 +130,22 @@ def rand_leaf(rng):
     return rng.choice([0, 1, -1, 127, 128, -128, -129, 255, 256])
 
 
+CONFUSABLE = [[1, True, 1.0, decimal.Decimal(1), decimal.Decimal('1.0')], [0, False, 0.0, -0.0, decimal.Decimal(0), decimal.Decimal('0.00')],
+              [2, 2.0, decimal.Decimal(2)], [-1, -1.0, decimal.Decimal(-1)], [255, 255.0], ['', None], [[], {}], ['1', 1], [bytearray(b'a'), 'a']]
+
+
+def confusable_container(rng):
+    """values that compare (or hash) equal but have different types or representations, side by side"""
+    grp = rng.choice(CONFUSABLE)
+    items = [rng.choice(grp) for _ in range(rng.randint(2, 4))]
+    if rng.random() < 0.5:
+        return items
+    return {k: v for k, v in zip(['a', 'b', 'c', 'd'], items)}
+
+
 def rand_value(rng, depth=3, width=4):
+    if depth > 0 and rng.random() < 0.06:
+        return confusable_container(rng)
     if depth <= 0 or rng.random() < 0.45:
         return rand_leaf(rng)
     if rng.random() < 0.5:
